@@ -15,6 +15,10 @@ pub(crate) mod pop;
 pub use temp::TempValue;
 pub use iter::Iter;
 
+// Verification hook: lets the cfg(kani) harness module reach the range iterators' cursor.
+#[cfg(kani)]
+pub(crate) use iter::Iterable;
+
 use crate::any_vec_ptr::AnyVecPtr;
 
 /// Lazily `pop` on consumption/drop.
